@@ -29,4 +29,15 @@ MonBest(g, k, r, neg) ==
      IF r.found
      THEN LET w == Walk(g, r.src, r.path) IN w[1] => w[3] <= Best(g, r.src, r.dst, k)
      ELSE Paths(g, r.src, r.dst, k) = {}
+
+(* ---- conformance: the real code returned what the transcription of the code (Graph!CodeSearch) returns ---- *)
+ConformsRes(g, k, c, r) ==
+  LET t == CodeTo(c, k, r.src, r.dst) IN
+  /\ t.found = r.found /\ t.path = r.path /\ t.has_dist = r.has_dist
+  /\ (t.has_dist => t.cost = r.cost)
+  /\ c.arb = r.arb
+Conforms(e) ==
+  \A s \in 1..e.g.n : \A sk \in BOOLEAN :
+    LET rs == {x \in DOMAIN e.res : e.res[x].src = s /\ e.res[x].skip = sk /\ ~e.res[x].err} IN
+    rs # {} => LET c == CodeSearch(e.g, s, e.k, sk) IN \A x \in rs : ConformsRes(e.g, e.k, c, e.res[x])
 =============================================================================
